@@ -273,6 +273,7 @@ pub fn worker_main(sc: &DynScenario, a: &WorkerArgs) -> i32 {
             fails: Vec::new(),
             announce: if a.announce { Some(&announce_fn) } else { None },
             seen: &mut seen,
+            env_rng: Rng::new(crate::rng::mix2(run_seed(a.seed, sc.id, run), crate::rng::fnv1a(b"environment"))),
         };
         let r = std::panic::catch_unwind(std::panic::AssertUnwindSafe(|| {
             (sc.run)(&mut rng, &mut ctx);
